@@ -172,6 +172,23 @@ func LoadMint(config Config) (*Mint, error) {
 			}
 			mint.keysets[keyset.Id] = *keyset
 		}
+		// a rotation that was interrupted after deactivating the previous keyset and before
+		// saving the new one leaves no active keyset: reactivate the latest one
+		if mint.activeKeyset == nil {
+			var latest *crypto.MintKeyset
+			for _, keyset := range mint.keysets {
+				if latest == nil || keyset.DerivationPathIdx > latest.DerivationPathIdx {
+					k := keyset
+					latest = &k
+				}
+			}
+			if err := mint.db.UpdateKeysetActive(latest.Id, true); err != nil {
+				return nil, fmt.Errorf("could not reactivate keyset: %v", err)
+			}
+			latest.Active = true
+			mint.keysets[latest.Id] = *latest
+			mint.activeKeyset = latest
+		}
 		if config.RotateKeyset {
 			_, err := mint.RotateKeyset(config.InputFeePpk)
 			if err != nil {
@@ -1469,14 +1486,9 @@ func (m *Mint) RotateKeyset(fee uint) (*nut02.Keyset, error) {
 	m.logInfof("setting keyset '%v' to inactive", currentActiveKeyset.Id)
 
 	// deactivate previous one and change it in db
-	currentActiveKeyset.Active = false
-	m.keysets[currentActiveKeyset.Id] = *currentActiveKeyset
 	if err := m.db.UpdateKeysetActive(currentActiveKeyset.Id, false); err != nil {
 		return nil, fmt.Errorf("could not update active state of keyset in db: %v", err)
 	}
-	m.activeKeyset = newKeyset
-
-	m.keysets[newKeyset.Id] = *newKeyset
 
 	hexseed := hex.EncodeToString(seed)
 	activeDbKeyset := storage.DBKeyset{
@@ -1488,8 +1500,18 @@ func (m *Mint) RotateKeyset(fee uint) (*nut02.Keyset, error) {
 		InputFeePpk:       newKeyset.InputFeePpk,
 	}
 	if err := m.db.SaveKeyset(activeDbKeyset); err != nil {
+		// keep the previous keyset active rather than leaving the mint without one
+		if err := m.db.UpdateKeysetActive(currentActiveKeyset.Id, true); err != nil {
+			m.logErrorf("could not reactivate keyset '%v': %v", currentActiveKeyset.Id, err)
+		}
 		return nil, fmt.Errorf("error saving new active keyset: %v", err)
 	}
+
+	// only now that both changes are stored, switch over in memory
+	currentActiveKeyset.Active = false
+	m.keysets[currentActiveKeyset.Id] = *currentActiveKeyset
+	m.activeKeyset = newKeyset
+	m.keysets[newKeyset.Id] = *newKeyset
 	m.logInfof("setting new keyset %v to active", newKeyset.Id)
 
 	return &nut02.Keyset{
